@@ -296,4 +296,184 @@ theorem fold_modlut_voilut (p : Params) (st : Stages) (mfirst vfirst : Int) (mda
     | error e => rfl
     | ok e => cases st.invert <;> simp [scaledEntry, invertOut]
 
+/-- real-world value map, linear: `m s + b` inside the mapped range, refusal outside -/
+theorem fold_rwvm_linear (p : Params) (st : Stages) (first last m b : Rat) (s : Int)
+    (hp : p.rwvm = .linear first last m b) (h1 : st.rwvm = true) : folded p st s = ref p st s := by
+  simp only [folded, build, ref, refRwvm, applyEff, hp, h1, ↓reduceIte]
+  split_ifs <;> simp; ring
+
+/-- real-world value map, table: the entry inside the mapped range, refusal outside (no clipping) -/
+theorem fold_rwvm_lut (p : Params) (st : Stages) (first : Int) (data : List Rat) (s : Int)
+    (hp : p.rwvm = .lut first data) (h1 : st.rwvm = true) : folded p st s = ref p st s := by
+  simp only [folded, build, ref, refRwvm, applyEff, hp, h1, ↓reduceIte]
+  rw [applyLut_map]
+  by_cases h : s < first ∨ s > first + (data.length : Int) - 1
+  · rw [applyLut_noclip_outside _ _ _ h]; simp [h]
+  · have h' := h
+    push Not at h'
+    rw [applyLut_noclip_inside _ _ _ h'.1 h'.2]
+    simp only [h, ↓reduceIte]
+    cases getIdx data (s - first) <;> rfl
+
+/-- Out-of-range stored values are refused by the real-world value map (undefined, PS3.3 C.7.6.16.2.11) -/
+theorem rwvm_outside_refused (p : Params) (st : Stages) (first last m b : Rat) (s : Int)
+    (hp : p.rwvm = .linear first last m b) (h1 : st.rwvm = true) (hs : (s : Rat) < first ∨ (s : Rat) > last) :
+    folded p st s = .error .value := by
+  simp only [folded, build, applyEff, hp, h1, ↓reduceIte, hs]
+
+/-! ## Clause: lookup-table objects return the table they were given -/
+
+/-- `LUT.__init__` accepts exactly: 0 <= first mapped value < 2^16, 1..65536 entries of uint8 / uint16. -/
+theorem lut_init_accepts_iff (first : Int) (bits : Nat) (data : List Nat) :
+    (∃ ds, lutInit first bits data = .ok ds) ↔
+      (0 ≤ first ∧ first < 65536 ∧ 1 ≤ data.length ∧ data.length ≤ 65536 ∧ (bits = 8 ∨ bits = 16)) := by
+  unfold lutInit
+  constructor
+  · intro ⟨ds, h⟩
+    split_ifs at h
+    all_goals omega
+  · intro ⟨a, b, c, d, e⟩
+    have h1 : ¬ first < 0 := by omega
+    have h2 : ¬ first ≥ 2 ^ 16 := by omega
+    have h3 : ¬ data.length = 0 := by omega
+    have h4 : ¬ data.length > 2 ^ 16 := by omega
+    have h5 : ¬ (bits ≠ 16 ∧ bits ≠ 8) := by rcases e with rfl | rfl <;> simp
+    have h2' : ¬ (65536 ≤ first) := by omega
+    have h4' : ¬ (65536 < data.length) := by omega
+    simp [h1, h3, h5, h2', h4']
+
+/-- **Round trip**: for 8- and 16-bit tables, every first mapped value and every length 1..65536 - odd, even
+and 65536 (stored as 0 in the descriptor) - the accessors of the constructed item return the entries, the
+first mapped value and the number of entries that were given; LUTData always is a whole number of 16-bit
+words. -/
+theorem lut_roundtrip (first : Int) (bits : Nat) (data : List Nat) (ds : LutDs)
+    (hv : ∀ v ∈ data, v < 2 ^ bits) (h : lutInit first bits data = .ok ds) :
+    lutData ds = .ok data ∧ firstMapped ds = .ok first ∧ numberOfEntries ds = .ok (data.length : Int) ∧
+      ds.data.length % 2 = 0 := by
+  obtain ⟨a, b, c, d, e⟩ := (lut_init_accepts_iff first bits data).mp ⟨ds, h⟩
+  unfold lutInit at h
+  have h1 : ¬ first < 0 := by omega
+  have h2 : ¬ first ≥ 2 ^ 16 := by omega
+  have h3 : ¬ data.length = 0 := by omega
+  have h4 : ¬ data.length > 2 ^ 16 := by omega
+  have h5 : ¬ (bits ≠ 16 ∧ bits ≠ 8) := by rcases e with rfl | rfl <;> simp
+  simp only [h1, h2, h3, h4, h5, ↓reduceIte, Except.ok.injEq] at h
+  subst h
+  have key := lut_access (if data.length = 2 ^ 16 then 0 else (data.length : Int)) first bits data
+    (decide (bits = 8 ∧ data.length % 2 = 1)) e hv ⟨c, d⟩ (by norm_num) (by simp)
+  simp only [decide_eq_true_eq] at key
+  refine ⟨key.1, key.2.1, key.2.2, ?_⟩
+  rcases e with rfl | rfl
+  · simp only [encode8_eq data (by simpa using hv), true_and, List.length_append]
+    split_ifs with h <;> simp <;> omega
+  · simp [encode16_length]
+
+/-- The accessors on *any* item encoded as PS3.3 C.11.1.1 prescribes (e.g. read from a file: `d0 = 0` for
+65536 entries, 8-bit tables with or without padding byte) return the table. -/
+theorem lut_access_standard_item (d0 first : Int) (bits : Nat) (data : List Nat) (pad : Bool)
+    (hb : bits = 8 ∨ bits = 16) (hv : ∀ v ∈ data, v < 2 ^ bits) (hlen : 1 ≤ data.length ∧ data.length ≤ 65536)
+    (hd0 : d0 = if data.length = 65536 then 0 else (data.length : Int))
+    (hpad : pad = true → bits = 8 ∧ data.length % 2 = 1) :
+    lutData ⟨[d0, first, (bits : Int)], encodeEntries bits data ++ (if pad then [0] else [])⟩ = .ok data :=
+  (lut_access d0 first bits data pad hb hv hlen hd0 hpad).1
+
+/-! ## Clause: selection by index, negative index, explanation, label or unit -/
+
+/-- positions: Python indexing (0..n-1, -1..-n), anything else is refused -/
+theorem selector_index_spec {α} (l : List α) (k : Int) :
+    pyGet l k = if 0 ≤ k ∧ k < l.length then l[k.toNat]?
+      else if -(l.length : Int) ≤ k ∧ k < 0 then l[(l.length + k).toNat]? else none := pyGet_spec l k
+
+/-- names (explanation, label, unit): the first alternative carrying the name -/
+theorem selector_name_spec {α} [DecidableEq α] (l : List α) (x : α) (j : Nat) :
+    pyIndex l x = some j ↔ (l[j]? = some x ∧ ∀ i, i < j → l[i]? ≠ some x) := pyIndex_spec l x j
+
+/-- ... and refusal iff no alternative carries it -/
+theorem selector_name_absent {α} [DecidableEq α] (l : List α) (x : α) : pyIndex l x = none ↔ x ∉ l := pyIndex_none l x
+
+/-- **Window selection by position**: the alternative at `k` (Python indexing, negative from the end) or refusal -/
+theorem select_window_index (centers widths : List Rat) (expl : Option (List String)) (k : Int)
+    (hc : centers ≠ []) (hw : widths ≠ []) :
+    selectWindow centers widths expl (.idx k) =
+      (match pyGet widths k, pyGet centers k with
+       | some w, some c => some (c, w)
+       | _, _ => none) := by
+  simp only [selectWindow, pickValue_eq_pyGet _ _ hc, pickValue_eq_pyGet _ _ hw]
+  cases pyGet widths k <;> cases pyGet centers k <;> rfl
+
+/-- **Window selection by explanation**: the first alternative whose explanation equals the name; no
+explanations or no match: refusal -/
+theorem select_window_explanation (centers widths : List Rat) (expl : Option (List String)) (s : String) :
+    selectWindow centers widths expl (.str s) =
+      (match expl with
+       | none => none
+       | some ex => match pyIndex ex s with
+         | none => none
+         | some j => selectWindow centers widths expl (.idx (j : Int))) := by
+  cases expl with
+  | none => rfl
+  | some ex =>
+    simp only [selectWindow]
+    cases pyIndex ex s <;> rfl
+
+/-- VOI LUT by position / by LUTExplanation; real-world value map by position / LUTLabel / unit: the item at the
+position given by `selector_index_spec`, resp. at the first position found by `selector_name_spec` -/
+theorem selector_spec {α} (items : List α) (expl : List (Option String)) (labels : List String)
+    (units : List (String × String)) (k : Int) (s v sch : String) :
+    selectLut expl items (.idx k) = pyGet items k ∧
+    selectLut expl items (.str s) = (pyIndex expl (some s)).bind (fun j => pyGet items (j : Int)) ∧
+    selectRwvm labels units items (.idx k) = pyGet items k ∧
+    selectRwvm labels units items (.label s) = (pyIndex labels s).bind (fun j => pyGet items (j : Int)) ∧
+    selectRwvm labels units items (.unit v sch) = (pyIndex units (v, sch)).bind (fun j => pyGet items (j : Int)) := by
+  refine ⟨rfl, ?_, rfl, ?_, ?_⟩
+  · simp only [selectLut]; cases pyIndex expl (some s) <;> rfl
+  · simp only [selectRwvm]; cases pyIndex labels s <;> rfl
+  · simp only [selectRwvm]; cases pyIndex units (v, sch) <;> rfl
+
+/-! ## Clause: the parameters that apply to the frame (per-frame over shared) -/
+
+/-- **Per-frame over shared (over image level)**: parameters given for the frame itself are the ones used. -/
+theorem per_frame_over_shared {α} (pl : Placed α) (f : Nat) (a : α) (h : pl.perFrame[f]? = some (some a)) :
+    pl.find f = some (a, false) := find_per_frame pl f a h
+
+/-- no per-frame parameters: the shared ones (they apply to all frames) -/
+theorem shared_over_image {α} (pl : Placed α) (f : Nat) (a : α) (h : AbsentAt pl f) (hs : pl.shared = some a) :
+    pl.find f = some (a, true) := find_shared pl f a h hs
+
+/-- neither per-frame nor shared: the image level, else nothing -/
+theorem image_level_last {α} (pl : Placed α) (f : Nat) (h : AbsentAt pl f) (hs : pl.shared = none) :
+    pl.find f = pl.image.map (·, true) := find_image pl f h hs
+
+/-- **`get_frames` = `get_frame` frame by frame**: the transform built once for frame 0 is reused exactly when
+nothing it contains came from a per-frame item (`applies_to_all_frames`); for images whose functional groups
+are placed uniformly this never changes a frame. -/
+theorem frames_eq_frame {ρ μ ω β} (im : Meta ρ μ ω) (useRw useMod useVoi : Bool) (apply : Found ρ μ ω → Nat → β)
+    (n : Nat) (fs : List Nat) (h0 : 0 < n) (hfs : ∀ f ∈ fs, f < n)
+    (h1 : Uniform im.rwvm n) (h2 : Uniform im.rescale n) (h3 : Uniform im.window n) :
+    getFrames im useRw useMod useVoi apply fs = fs.map (getFrame im useRw useMod useVoi apply) := by
+  unfold getFrames getFrame
+  apply List.map_congr_left
+  intro f hf
+  have hfn := hfs f hf
+  by_cases hall : (discover im useRw useMod useVoi 0).all = true
+  · simp only [hall, ↓reduceIte]
+    suffices discover im useRw useMod useVoi f = discover im useRw useMod useVoi 0 by rw [this]
+    unfold discover at hall ⊢
+    cases hr : (if useRw then im.rwvm.find 0 else none) with
+    | some x =>
+      obtain ⟨r, sh⟩ := x
+      rw [hr] at hall
+      simp only at hall
+      have : (if useRw then im.rwvm.find f else none) = (if useRw then im.rwvm.find 0 else none) :=
+        opt_find_stable _ useRw n f h1 h0 hfn (by rw [hr]; exact hall)
+      rw [this, hr]
+    | none =>
+      rw [hr] at hall
+      have hrf : (if useRw then im.rwvm.find f else none) = none := by
+        rw [opt_find_stable _ useRw n f h1 h0 hfn (by rw [hr]), hr]
+      rw [hrf]
+      simp only [Bool.and_eq_true] at hall ⊢
+      rw [opt_find_stable _ useMod n f h2 h0 hfn hall.1, opt_find_stable _ useVoi n f h3 h0 hfn hall.2]
+  · simp [hall]
+
 end HdVerif.C06
